@@ -24,6 +24,7 @@ use std::sync::Arc;
 pub(crate) struct XPubSubscriber {
     pub(crate) subscriptions: Vec<Vec<u8>>,
     pub(crate) send_queue: Pin<Box<ZmqFramedWrite>>,
+    pub(crate) connection_id: u64,
 }
 
 pub(crate) struct XPubSocketBackend {
@@ -74,6 +75,18 @@ impl XPubSocketBackend {
     }
 }
 
+impl XPubSocketBackend {
+    /// The peer closed the connection `connection_id`: forget the subscriber, unless it
+    /// has reconnected under the same identity in the meantime.
+    async fn peer_closed(&self, peer_id: &PeerIdentity, connection_id: u64) {
+        self.subscribers
+            .remove_if_async(peer_id, |subscriber| {
+                subscriber.connection_id == connection_id
+            })
+            .await;
+    }
+}
+
 impl SocketBackend for XPubSocketBackend {
     fn socket_type(&self) -> SocketType {
         SocketType::XPUB
@@ -95,6 +108,7 @@ impl SocketBackend for XPubSocketBackend {
 #[async_trait]
 impl MultiPeerBackend for XPubSocketBackend {
     async fn peer_connected(self: Arc<Self>, peer_id: &PeerIdentity, io: FramedIo) {
+        let connection_id = io.connection_id;
         let (recv_queue, send_queue) = io.into_parts();
 
         self.subscribers
@@ -103,13 +117,14 @@ impl MultiPeerBackend for XPubSocketBackend {
                 XPubSubscriber {
                     subscriptions: vec![],
                     send_queue: Box::pin(send_queue),
+                    connection_id,
                 },
             )
             .await;
 
         self.fair_queue_inner
             .lock()
-            .insert(peer_id.clone(), recv_queue);
+            .insert_connection(peer_id.clone(), recv_queue, connection_id);
     }
 
     async fn peer_disconnected(&self, peer_id: &PeerIdentity) {
@@ -180,6 +195,10 @@ impl SocketSend for XPubSocket {
 impl SocketRecv for XPubSocket {
     async fn recv(&mut self) -> ZmqResult<ZmqMessage> {
         loop {
+            // Release what is still held for peers whose connection has ended.
+            for (peer_id, connection_id) in self.fair_queue.take_closed() {
+                self.backend.peer_closed(&peer_id, connection_id).await;
+            }
             match self.fair_queue.next().await {
                 Some((peer_id, Ok(Message::Message(message)))) => {
                     // Process the subscription message internally to update tracking
